@@ -1,6 +1,10 @@
 import CkbVerif.Driver.C01
+import CkbVerif.Driver.C02
 import CkbVerif.Gen.Restart
 import CkbVerif.Model.RestartView
+import CkbVerif.Model.CrashStore
+import CkbVerif.Model.MMR
+import CkbVerif.Model.PoolReload
 /-!
 C08 uses the chain-pipeline driver of C01 (ops `blk`, `deliver`, `commits`, `crashdeliver`, `restart`,
 `scan`, `burst`) and adds (harness/n08/src/c08.rs, family `fork`):
@@ -38,6 +42,42 @@ Proposal table / view across restarts (`Model/RestartView.lean`):
                              an operation moved the tip — and answers from it; it also recomputes `initAt` at
                              the current tip and appends ` init-differs` if the two differ as sets (they cannot:
                              `C08.init_eq_incremental`)                         -> gap=<ids> set=<ids>
+
+The store view under the same commit log (`Model/CrashStore.lean` over `Model/Store.lean`):
+
+  gtx <id> out=<dlen.dtag,…|none>      a genesis transaction                                  -> ok
+  genesis el=<epoch length> txs=<ids>  `ChainDB::init`; switches the view tracking on         -> ok
+  tx <id> fee=<f> in=<tx:idx,…|-> out=<dlen.dtag,…|none>   any other transaction (cellbases included) -> ok
+  body <id> ep=<n.i.l> txs=<ids, cellbase first> uncles=<uncle ids|->   the content of block <id> (parent and
+                             number from its `blk` line; opens an epoch iff index = 0, epoch record as in
+                             Driver/C02)                                                        -> ok
+  dump                       the persisted column view: every op of the pipeline driver is expanded into its
+                             trace of micro-states (`deliver` without drain / one `verifyHead` / one step of the
+                             orphan search), the commits between two consecutive micro-states are read off the
+                             persisted part (`CrashStore.diffCommits`) and applied to the view one by one
+                             (`applyCommit`: `ins` = insert_block rows, `del` = delete_block rows, `ver` = the
+                             single verify_block transaction), up to the micro-state the op ended in (a crash op
+                             ends inside the trace). Answer: the 12 sections of Driver/C02's dump, then
+                             `body=<ids with block rows>` and `mmr=<leaf_index_to_mmr_size(tip number)>`;
+                             ` view-neq-replay` is appended if the main-chain view differs from the replay of
+                             the persisted tip's chain (it cannot: `C08.crash_view_eq_replay_every_commit…`),
+                             ` trace-mismatch` if no prefix of the trace ends in the op's state -> dump line
+
+The tx-pool across a restart (`Model/PoolReload.lean`; family `pool`; transactions are declared with `tx`,
+the live-cell set is the `cells` column of the store view above):
+
+  psubmit <id>               `submit_local_tx`                                   -> ok|rej pool=<ids>
+  premove <id>               `remove_local_tx` (the transaction and its descendants)       -> pool=<ids>
+  psave <ids in file order>  `save_pool`: the file the harness READ BACK (order as written by
+                             `drain_all_transactions`); the pool is drained        -> saved=<the model's pool, sorted>
+                             (` order-differs predicted=…` is appended when the file is not in the slot order of
+                             the modelled slab — `PoolReload.Slab`, LIFO vacant list, ascending drain — while
+                             that order is determined: no removal with two or more descendants so far)
+  preload                    start of the next process: `load_persisted_data` = `submit_local_tx` in file
+                             order on an empty pool, against the live cells of the current tip -> pool=<ids>
+  ptorn                      the file was cut short (a process that died inside `save_into_file`: truncate, write,
+                             sync_all — no atomic rename): `load_from_file` finds it broken and ignores ALL of it -> ok
+  (any op after which the process is dead empties the pool; the file stays)
 -/
 namespace CkbVerif.Driver.C08
 open CkbVerif.Driver CkbVerif.Chain CkbVerif.Driver.C01
@@ -108,6 +148,18 @@ structure St8 where
   props : List (Nat × Ids × Ids) := []
   /-- table / view of the running process (`none` = first start on a fresh directory, not yet needed) -/
   pv : Option Node := none
+  /-- store-view tracking (`genesis` switches it on) -/
+  svOn : Bool := false
+  sv : C02.St := {}
+  uncleIds : List Nat := []
+  svFlag : String := ""
+  /-- the tx-pool of the running process (insertion order) and the content of the persisted file -/
+  pool : List PoolReload.PTx := []
+  saved : List PoolReload.PTx := []
+  /-- the slab of the pool's multi-index map (`PoolReload.Slab`) and whether its vacant list is still
+  determined (a removal with two or more descendants frees slots in `HashSet` order) -/
+  slab : PoolReload.Slab := PoolReload.Slab.empty
+  slabDet : Bool := true
 
 open CkbVerif.Window CkbVerif.RestartView
 
@@ -122,7 +174,174 @@ def viewLine (v : View) : String := s!"gap={showNatList (sortedSet v.gap)} set={
 /-- ops after which the model state is that of a process that has just died -/
 def diesAfter (op : String) : Bool := op == "crash" || op == "crashdeliver" || op == "burstcrash" || op == "crash2" || op == "burststop" || op == "crashsome"
 
+/-! ## the store view under the same commit log -/
+
+/-- `n` verify steps, every state collected -/
+def verifyTrace (T : Tree) (s : State) (n : Nat) : List State :=
+  ((List.range n).foldl (fun (acc : State × List State) _ =>
+    let x := (verifyHead T acc.1).1
+    (x, acc.2 ++ [x])) (s, [])).2
+
+/-- deliveries without drain, every state collected -/
+def deliverTrace (T : Tree) (s : State) (ids : List Nat) (hint : List Nat) : List State :=
+  (ids.foldl (fun (acc : State × List State) b =>
+    let x := (deliver T hint acc.1 b).1
+    (x, acc.2 ++ [x])) (s, [])).2
+
+def lastOr (s : State) (l : List State) : State := l.getLast?.getD s
+
+/-- serialised delivery: deliver, then verify until the queue is empty -/
+def deliverQTrace (T : Tree) (s : State) (b : Nat) (hint : List Nat) : List State :=
+  let s1 := (deliver T hint s b).1
+  s1 :: verifyTrace T s1 s1.queue.length
+
+/-- the full trace of micro-states of one op of the pipeline driver (states AFTER `s`), at a granularity
+at which two consecutive states are at most one `verify_block` commit apart -/
+def traceOf (T : Tree) (s : State) (ts : List String) : List State :=
+  match ts with
+  | ["deliver", i, h] =>
+    match parseNat? i, parseNatList? h with
+    | some i, some h => deliverQTrace T s i h
+    | _, _ => []
+  | ["burst", l] | ["longchain", l] =>
+    match parseNatList? l with
+    | some l => (l.foldl (fun (acc : State × List State) b =>
+        let t := deliverQTrace T acc.1 b []
+        (lastOr acc.1 t, acc.2 ++ t)) (s, [])).2
+    | none => []
+  | ["crashdeliver", i, _] | ["crashsome", i, _] =>
+    match parseNat? i with
+    | some i => (microStates T s i).drop 1
+    | none => []
+  | ["burstcrash", l, i, v] =>
+    match parseNatList? l, parseNat? i, parseNat? v with
+    | some l, some i, some v =>
+      let t := deliverTrace T s (l.take i) []
+      t ++ verifyTrace T (lastOr s t) v
+    | _, _, _ => []
+  | ["burststop", l, _] =>
+    match parseNatList? l with
+    | some l =>
+      let t := deliverTrace T s l []
+      let s1 := lastOr s t
+      t ++ verifyTrace T s1 s1.queue.length
+    | none => []
+  | ["crash2", m, o, _] | ["restart", m, o] =>
+    match parseNat? m, parseNatList? o with
+    | some m, some o =>
+      let s0 := crash s
+      let t := deliverTrace T s0 (scanList T m o s0) []
+      let s1 := lastOr s0 t
+      t ++ verifyTrace T s1 s1.queue.length
+    | _, _ => []
+  | ["expire"] => [expire T s]
+  | _ => []
+
+def bodyOf (sv : C02.St) (i : Nat) : Store.Block := (C02.lookup sv.blocks i).getD default
+
+/-- apply the commits of the shortest prefix of `trace` that ends in (the persisted part of) `after` -/
+def advanceView (sv : C02.St) (ids : List Nat) (s after : State) (trace : List State) : Store.View × Bool :=
+  if CrashStore.samePersisted ids s after then (sv.v, true) else
+  let r := trace.foldl (fun (acc : (State × Store.View) × Bool) x =>
+    if acc.2 then acc else
+    let v := CrashStore.applyLog acc.1.2 (CrashStore.diffCommits (bodyOf sv) ids acc.1.1 x)
+    ((x, v), CrashStore.samePersisted ids x after)) ((s, sv.v), false)
+  (r.1.2, r.2)
+
+def outsOf (s : String) : Option (List Store.Output) := if s = "none" then some [] else C02.parseOuts s
+
+def dump8 (d : St8) : String :=
+  let T := treeOf d.base.decls
+  let s := getState d.base
+  let blocks := d.sv.blocks ++ d.uncleIds.map fun u => (u, ({ (default : Store.Block) with id := u } : Store.Block))
+  let line := C02.dump { d.sv with blocks := blocks } d.sv.v
+  let ids := C02.sortNat (d.sv.blocks.map (·.1))
+  let bodyS := C02.join ((ids.filter fun i => (d.sv.v.r.bodies i).isSome).map toString)
+  let mmr := MMR.leafIndexToMmrSize (T.num s.tip)
+  let ref := CrashStore.replayOf T (bodyOf d.sv) s.tip
+  let refLine := C02.dump { d.sv with blocks := blocks } ⟨ref.m, d.sv.v.r⟩
+  s!"{line} body={bodyS} mmr={mmr}" ++ (if line == refLine then "" else " view-neq-replay") ++ d.svFlag
+
+def ptxOf (d : St8) (i : Nat) : Option PoolReload.PTx :=
+  (C02.lookup d.sv.txs i).map fun t => { id := t.id, inputs := t.inputs, nout := t.outputs.length }
+
+def liveOf (d : St8) : Store.OutPoint → Bool := fun o => (d.sv.v.m.cells o).isSome
+
+def poolLine (pool : List PoolReload.PTx) : String := "pool=" ++ showNatList (C02.sortNat (pool.map (·.id)))
+
+def stepStore (d : St8) (ts : List String) : Option (St8 × String) :=
+  match ts with
+  | ["gtx", id, outs] =>
+    match parseNat? id, (C02.kv outs "out").bind outsOf with
+    | some id, some outs =>
+      some ({ d with sv := { d.sv with txs := (id, { id := id, inputs := [], outputs := outs }) :: d.sv.txs } }, "ok")
+    | _, _ => some (d, "bad-op")
+  | ["genesis", el, txs] =>
+    match (C02.kv el "el").bind parseNat?, (C02.kv txs "txs").bind parseNatList? with
+    | some el, some ids =>
+      match ids.mapM (C02.lookup d.sv.txs) with
+      | some txl =>
+        let g : Store.Block := { id := 0, parent := 0, number := 0, epoch := ⟨0, 0, 0⟩, txs := txl, uncles := [],
+                                 isHead := true, epochRec := ⟨0, 0, el, C02.ZERO_ID⟩ }
+        let sv := { d.sv with blocks := [(0, g)], elen := el }
+        some ({ d with sv := { sv with v := C02.normalize sv (Store.init g) }, svOn := true }, "ok")
+      | none => some (d, "bad-op")
+    | _, _ => some (d, "bad-op")
+  | ["tx", id, fee, ins, outs] =>
+    match parseNat? id, (C02.kv fee "fee").bind parseNat?, (C02.kv ins "in").bind C02.parseIns, (C02.kv outs "out").bind outsOf with
+    | some id, some fee, some ins, some outs =>
+      some ({ d with sv := { d.sv with txs := (id, { id := id, inputs := ins, outputs := outs, fee := fee }) :: d.sv.txs } }, "ok")
+    | _, _, _, _ => some (d, "bad-op")
+  | ["body", id, epf, txs, uncles] =>
+    match parseNat? id, (C02.kv epf "ep").bind C02.parseEp, (C02.kv txs "txs").bind parseNatList?, (C02.kv uncles "uncles").bind parseNatList? with
+    | some id, some e, some txIds, some uncles =>
+      match look d.base.decls id, txIds.mapM (C02.lookup d.sv.txs) with
+      | some dc, some txl =>
+        match C02.lookup d.sv.blocks dc.parent with
+        | some p =>
+          let isHead := e.index == 0
+          let rec_ : Store.EpochRec := if isHead then ⟨e.number, dc.num, e.length, dc.parent⟩ else p.epochRec
+          let b : Store.Block := { id := id, parent := dc.parent, number := dc.num, epoch := e, txs := txl,
+                                   uncles := uncles, isHead := isHead, epochRec := rec_ }
+          some ({ d with sv := { d.sv with blocks := (id, b) :: d.sv.blocks }, uncleIds := d.uncleIds ++ uncles }, "ok")
+        | none => some (d, "bad-op")
+      | _, _ => some (d, "bad-op")
+    | _, _, _, _ => some (d, "bad-op")
+  | ["dump"] => some (d, if d.svOn then dump8 d else "view-off")
+  | ["psubmit", i] =>
+    match (parseNat? i).bind (ptxOf d) with
+    | some t =>
+      let ok := PoolReload.accepts (liveOf d) d.pool t
+      let pool := PoolReload.submit (liveOf d) d.pool t
+      some ({ d with pool := pool, slab := if ok then d.slab.insert t else d.slab }, (if ok then "ok " else "rej ") ++ poolLine pool)
+    | none => some (d, "bad-op")
+  | ["premove", i] =>
+    match parseNat? i with
+    | some i =>
+      let pool := PoolReload.removeTx d.pool i
+      let gone := PoolReload.removedIds d.pool i
+      some ({ d with pool := pool, slab := gone.foldl PoolReload.Slab.remove d.slab,
+                     slabDet := d.slabDet && decide (gone.length ≤ 2) }, poolLine pool)
+    | none => some (d, "bad-op")
+  | ["psave", l] =>
+    match (parseNatList? l).bind fun l => l.mapM (ptxOf d) with
+    | some file =>
+      -- the ORDER of the file: ascending slot order of the slab, predicted while the vacant list is determined
+      let predicted := d.slab.drain.map (·.id)
+      let flag := if d.slabDet && predicted != file.map (·.id) then s!" order-differs predicted={showNatList predicted}" else ""
+      some ({ d with saved := file, pool := [], slab := PoolReload.Slab.empty, slabDet := true },
+        "saved=" ++ showNatList (C02.sortNat (d.pool.map (·.id))) ++ flag)
+    | none => some (d, "bad-op")
+  | ["ptorn"] => some ({ d with saved := [] }, "ok")
+  | ["preload"] =>
+    let pool := PoolReload.reload (liveOf d) d.saved
+    some ({ d with pool := pool, slab := pool.foldl PoolReload.Slab.insert PoolReload.Slab.empty, slabDet := true }, poolLine pool)
+  | _ => none
+
 def step8 (d : St8) (ts : List String) : St8 × String :=
+  match stepStore d ts with
+  | some r => r
+  | none =>
   match ts with
   | ["win", c, f] =>
     match parseNat? c, parseNat? f with
@@ -155,7 +374,15 @@ def step8 (d : St8) (ts : List String) : St8 × String :=
       else
         let pv0 := if op == "restart" then initAt d.win P T before.tip else d.pv.getD (initAt d.win P T 0)
         if after.tip = before.tip then some pv0 else some (switchTo d.win P T pv0 before.tip after.tip)
-    ({ d with base := b', pv := pv }, out)
+    let d :=
+      if d.svOn then
+        let ids := b'.decls.map (·.id)
+        let (v, ok) := advanceView d.sv ids before after (traceOf T before ts)
+        { d with sv := { d.sv with v := C02.normalize d.sv v }, svFlag := if ok then d.svFlag else " trace-mismatch" }
+      else d
+    let dead := diesAfter op
+    ({ d with base := b', pv := pv, pool := if dead then [] else d.pool,
+              slab := if dead then PoolReload.Slab.empty else d.slab, slabDet := dead || d.slabDet }, out)
   | [] => (d, "bad-op")
 
 def main (_args : List String) : IO UInt32 := runLines ({} : St8) step8
